@@ -506,6 +506,33 @@ def pair_len(repo: Repo, rep):
                 other = [x for x in sides if x != f"len({base}.keys)"]
                 if len(other) == 1 and other[0].startswith("len(") and base not in other[0]:
                     lens.append((c, "T" if isinstance(e.ops[0], ast.Eq) else "F"))
+        # a predicate helper whose answer includes the length test (`return not any(..) and len(old) == len(keys)`)
+        cg_ = callgraph(repo)
+        for c in cfg.conds():
+            e = c.ast
+            if isinstance(e, ast.Call):
+                tg, _ = cg_.call_targets(f, e)
+                for g in tg:
+                    rets = [r for r in body_nodes(g.node) if isinstance(r, ast.Return) and r.value is not None]
+                    if len(rets) != 1:
+                        continue
+                    v = rets[0].value
+                    parts = v.values if isinstance(v, ast.BoolOp) and isinstance(v.op, ast.And) else [v]
+                    for pt in parts:
+                        if isinstance(pt, ast.Compare) and len(pt.ops) == 1 and isinstance(pt.ops[0], ast.Eq):
+                            sides = [pt.left, pt.comparators[0]]
+                            if all(isinstance(x, ast.Call) and norm(x.func) == "len" and x.args for x in sides):
+                                def res(x_):
+                                    y = x_.args[0]
+                                    if isinstance(y, ast.Name):
+                                        for st_ in body_nodes(g.node):
+                                            if isinstance(st_, ast.Assign) and any(isinstance(t_, ast.Name) and t_.id == y.id for t_ in st_.targets):
+                                                return norm(st_.value)
+                                    return norm(y)
+                                rs = [res(x) for x in sides]
+                                # the helper's own receiver is the caller's receiver (a method called on self)
+                                if f"{base}.keys" in rs and rs[0] != rs[1]:
+                                    lens.append((c, "T"))
         nn_edges = [(x, "F") for x in cfg.conds() if norm(x.ast) == f"{base} is not None"] + [(x, "T") for x in cfg.conds() if norm(x.ast) == f"{base} is None"]
         at = cfg.nodes_containing(a)
         if not at:
